@@ -12,7 +12,11 @@ from . import c05 as C5
 
 RULE = ("(a) self-replacement P→P on planted structures (all cell kinds, poses, boundary placements, all findlib patterns "
         "incl. symmetric ones, 1–3 copies + decoys) that carry random bonds/angles/dihedrals/impropers with coefficient "
-        "tables, unique charges and groups; patterns without terms; (b) site substitution A→B then B→A (B's element absent "
+        "tables, unique charges and groups; patterns without terms; (a') RING stream: every matched copy of a ≥3-atom pattern "
+        "carries all three angles (i,j,k),(j,k,i),(k,i,j) over its first three atoms and (≥4 atoms) the four torsions "
+        "around the 4-ring of its first four atoms, each listed forwards or backwards with random types, and the search = "
+        "replacement pattern itself carries ONE of these angles / torsions (type 0, no coefficient table): the pattern's "
+        "term must supersede only the identical structure term; (b) site substitution A→B then B→A (B's element absent "
         "from the structure): single-atom sites (exact) and multi-atom site patterns with one element substituted "
         "(within 4·atol); (c) replace ALL occurrences by a pattern that does not contain the search pattern, then search "
         "again; (d, thorough) self-replacement on the repository's MOF files. Non-trivial = at least one match was "
@@ -94,6 +98,63 @@ def sliced_pattern(sj, pj):
         a["ty"] = elems.index(pj["types"]["elem"][a["ty"]])
     out["types"] = dict(out["types"], elem=list(elems), label=list(sj["types"]["label"]), mass=list(sj["types"]["mass"]), pair=[])
     return out
+
+
+def _rotations(t):
+    t = list(t)
+    return [t[k:] + t[:k] for k in range(len(t))]
+
+
+def ring_case(rng, tier):
+    """self-replacement where the matched atoms form small rings in the structure's topology (several angle / torsion
+    terms over the same atom SET) and the pattern carries one of those terms"""
+    names = [p for p in findlib.PATTERNS if len(findlib.PATTERNS[p][0]) >= 3]
+    for attempt in range(20):
+        base = G.make_case(rng, tier, pname=rng.choice(names), rp_kind="keep_all+far", replace_all=False)
+        sj = G.add_terms(rng, base["s"], density=rng.choice([0.5, 1.0]))
+        pre = findlib.run_replace(sj, base["p"], base["p"], atol=base["atol"], seed=base["seed"])
+        used = pre.get("used") or []
+        if used:
+            break
+    sj = json.loads(json.dumps(sj))
+    pj = json.loads(json.dumps(base["p"]))
+    n = len(pj["atoms"])
+    kinds = [("angle", 3)] + ([("dihedral", 4)] if n >= 4 else [])
+    for kind, ar in kinds:
+        rots = _rotations(range(ar))
+        own = list(rng.choice(rots))
+        if rng.random() < 0.5:
+            own.reverse()
+        pj["terms"][kind] = [{"a": own, "ty": 0, "x": []}]
+        nt = max(1, len(sj["types"][kind]))
+        ring_keys = set()
+        new_terms = []
+        for m in used:
+            for rot in rots:
+                t = [m["idx"][k] for k in rot]
+                if rng.random() < 0.5:
+                    t.reverse()
+                key = norm_tuple(t)
+                if key in ring_keys:
+                    continue
+                ring_keys.add(key)
+                new_terms.append({"a": t, "ty": rng.randrange(nt), "x": []})
+        kept = [t for t in sj["terms"][kind] if norm_tuple(t["a"]) not in ring_keys]
+        allt = kept + new_terms
+        rng.shuffle(allt)
+        sj["terms"][kind] = allt
+    if rng.random() < 0.5 and n >= 2:
+        # a bond of the pattern that the structure already has (listed the other way round)
+        pj["terms"]["bond"] = [{"a": [0, 1], "ty": 0, "x": []}]
+        keys = {norm_tuple(t["a"]) for t in sj["terms"]["bond"]}
+        nt = max(1, len(sj["types"]["bond"]))
+        for m in used:
+            t = [m["idx"][1], m["idx"][0]]
+            if norm_tuple(t) not in keys:
+                keys.add(norm_tuple(t))
+                sj["terms"]["bond"].append({"a": t, "ty": rng.randrange(nt), "x": []})
+    return {"op": "c08-self", "s": sj, "p": pj, "atol": base["atol"], "seed": base["seed"], "info": base["info"],
+            "ring": True, "ring_used": [m["idx"] for m in used]}
 
 
 def run_self(case):
@@ -241,6 +302,13 @@ def do_self(ctx, case, ops):
             bad = "second consecutive self-replacement: " + bad
         ctx.count("self:twice")
     used = out.get("used") or []
+    if case.get("ring"):
+        ctx.count("self:ring")
+        if [m["idx"] for m in used] != case.get("ring_used"):
+            # the search numbered a symmetric copy differently than when the ring terms were laid out: the pattern's
+            # torsion may then be a genuinely new tuple; outside this stream's construction
+            ctx.count("self:ring:renumbered-skipped")
+            bad = None
     matched = {i for m in used for i in m["idx"]}
     touched = any(set(t["a"]) & matched for k in case["s"]["terms"] for t in case["s"]["terms"][k])
     ctx.case(case, nontrivial=bool(used) and touched)
@@ -298,6 +366,8 @@ def run(ctx, oracle_only=False):
     ops = None if oracle_only else []
     for _ in range(ctx.n(150, 2500)):
         do_self(ctx, self_case(rng, ctx.tier), ops)
+    for _ in range(ctx.n(80, 1200)):
+        do_self(ctx, ring_case(rng, ctx.tier), ops)
     for _ in range(ctx.n(90, 1500)):
         do_site(ctx, site_case(rng, ctx.tier), ops)
     for _ in range(ctx.n(60, 1000)):
@@ -321,6 +391,10 @@ def search(ctx):
         rng = ctx.rng
         for _ in range(1200):
             do_self(ctx, self_case(rng, "thorough"), None)
+            if ctx.failures:
+                return
+        for _ in range(600):
+            do_self(ctx, ring_case(rng, "thorough"), None)
             if ctx.failures:
                 return
         for _ in range(800):
